@@ -119,6 +119,12 @@ pub struct Live<'a> {
     pub total_len: usize,
     /// the chunk size the reader currently has (for the read-count oracle)
     pub chunk_now: usize,
+    /// largest chunk size and largest request so far (C10: what the buffer may be sized by)
+    pub max_chunk: usize,
+    pub max_req: usize,
+    /// `vh gen`: case line up to the ops field, and the ops executed so far
+    pub trace_head: String,
+    pub trace_ops: Vec<Op>,
     pub fails: Vec<String>,
 }
 
@@ -152,6 +158,10 @@ impl<'a> Live<'a> {
             taken: false,
             total_len: c.pre.len() + c.data.len(),
             chunk_now: c.chunk,
+            max_chunk: c.chunk,
+            max_req: c.pre.len() + c.pre_consumed,
+            trace_head: c.line().split(" o=").next().unwrap_or("").to_string(),
+            trace_ops: vec![],
             fails: vec![],
         }
     }
@@ -201,7 +211,7 @@ impl<'a> Live<'a> {
         while have < target {
             let d = match it.next() {
                 Some(Ev::Intr) => continue,
-                Some(Ev::Lie(_)) => return None,
+                Some(Ev::Lie(_)) | Some(Ev::Panic(_)) => return None,
                 Some(Ev::Give(g)) => (*g).max(1).min(self.chunk_now).min(remaining),
                 None => self.chunk_now.min(remaining),
             };
@@ -217,7 +227,9 @@ impl<'a> Live<'a> {
 
     /// Record an oracle failure; the message starts with the property it falsifies.
     fn fail(&mut self, i: usize, msg: String) {
-        let prop = if msg.contains("called the source") || msg.contains("successful reads") || msg.contains("source called after") {
+        let prop = if msg.starts_with("C10 ") {
+            "C10"
+        } else if msg.contains("called the source") || msg.contains("successful reads") || msg.contains("source called after") {
             "C09"
         } else if msg.contains("did not panic") || msg.contains("exceeds all data") || msg.contains("panicking call") {
             "C14"
@@ -232,15 +244,28 @@ impl<'a> Live<'a> {
     /// Apply one op to the real reader; returns the observation string and records oracle
     /// failures.
     pub fn step(&mut self, i: usize, op: Op) -> String {
+        if GEN_MODE.load(std::sync::atomic::Ordering::Relaxed) {
+            if let Some(path) = trace_file() {
+                self.trace_ops.push(op);
+                let _ = std::fs::write(path, format!("{} o={}\n", self.trace_head, fmt_ops(&self.trace_ops)));
+            }
+        }
         let len_before = self.r.buf_len();
         let calls_before = self.src.0.borrow().calls;
         let prod_before = self.src.0.borrow().productive_calls;
         let complete_before = self.r.is_complete();
         let win_before: Option<Vec<u8>> = if len_before <= self.total_len {
-            Some(self.r.buf().to_vec())
+            catch(|| self.r.buf().to_vec())
         } else {
             None
         };
+        match op {
+            Op::Rq(n) => self.max_req = self.max_req.max(n.min(self.total_len + 1)),
+            Op::Ra(k) => self.max_req = self.max_req.max(k.saturating_add(1).min(self.total_len + 1)),
+            Op::Sc(c) => self.max_chunk = self.max_chunk.max(c),
+            _ => {}
+        }
+        let heap0 = heap_mark();
         let needed = match op {
             Op::Rq(n) => self.reads_needed(n),
             Op::Ra(k) => self.reads_needed(k.saturating_add(1)),
@@ -376,14 +401,26 @@ impl<'a> Live<'a> {
                 }
             }
         };
+        // ---- C10: what one call allocates is bounded by chunk size and the largest request, not
+        // by the bytes already processed (buffer length <= 3 chunk + look-ahead, capacity <= 2x)
+        let (_, largest) = heap_peak_since(heap0);
+        // coarse on purpose (Vec capacity doubling, cursor up to 2 chunks + one window behind the
+        // buffer start): a leak grows with the position and passes any such constant factor
+        let bound = 16 * self.max_chunk + 8 * self.max_req + 4096;
+        if largest > bound {
+            self.fail(i, format!("C10 one call allocated {} bytes at once (chunk <= {}, largest request/pre-buffer {}, bound {})", largest, self.max_chunk, self.max_req, bound));
+        }
         // ---- observation + state oracle ----
         let blen = self.r.buf_len();
-        if self.r.buf_ptr() != self.r.buf().as_ptr() {
-            self.fail(i, "buf_ptr() exceeds all data: it is not the start of buf()".into());
+        // `buf()` itself may panic (debug assertion) once the reader's invariant is broken
+        match catch(|| self.r.buf_ptr() == self.r.buf().as_ptr()) {
+            Some(true) => {}
+            Some(false) => self.fail(i, "buf_ptr() exceeds all data: it is not the start of buf()".into()),
+            None => self.fail(i, "buf() panicked: the window exceeds all data the buffer holds".into()),
         }
         let stream_len = self.stream_len();
         let window: Option<Vec<u8>> = if blen <= self.total_len {
-            Some(self.r.buf().to_vec())
+            catch(|| self.r.buf().to_vec())
         } else {
             None
         };
@@ -549,7 +586,7 @@ pub fn gen_case(rng: &mut Rng, with_lies: bool, thorough: bool) -> Case {
         let e = if rng.chance(1, 8) {
             Ev::Intr
         } else if with_lies && rng.chance(1, 25) {
-            Ev::Lie(rng.below(3) as usize)
+            if rng.chance(1, 2) { Ev::Lie(rng.below(3) as usize) } else { Ev::Panic(rng.below(3) as usize) }
         } else {
             match style {
                 0 => Ev::Give(1),
@@ -685,7 +722,7 @@ fn short_events(rng: &mut Rng, chunk: usize, n: usize) -> Vec<Ev> {
             if rng.chance(1, 8) {
                 Ev::Intr
             } else if lies && rng.chance(1, 10) {
-                Ev::Lie(rng.below(3) as usize)
+                if rng.chance(1, 2) { Ev::Lie(rng.below(3) as usize) } else { Ev::Panic(rng.below(3) as usize) }
             } else {
                 Ev::Give(match style {
                     0 => 1,
@@ -803,11 +840,14 @@ fn gen_scale_case(rng: &mut Rng, dim: usize, size: usize) -> Case {
                 live.step(ops.len() - 1, op);
             };
             let mark_at = if rng.chance(1, 2) { rng.below(q as u64 + 1) as usize } else { usize::MAX };
+            // in a third of the cases the whole stream is pulled through `request_more` alone (no
+            // `request*` call ever needs a refill of its own)
+            let rm_only = rng.chance(1, 3);
             for i in 0..q {
                 if i == mark_at {
                     push(&mut live, &mut ops, if rng.chance(1, 3) { Op::Sp(*rng.pick(&sizes) as u64) } else { Op::Sm });
                 }
-                match rng.below(10) {
+                match if rm_only { 0 } else { rng.below(10) } {
                     0 => {
                         push(&mut live, &mut ops, Op::Rm);
                         push(&mut live, &mut ops, Op::Ad(c));
